@@ -273,6 +273,8 @@ private:
             // just swap the indexes in the open list to the partition point 'end'
             // and then delete that item.
             std::swap(m_open_list[e.m_open_list_position], m_open_list[m_open_list_end - 1]);
+            // The element that was swapped out of the last in-use slot now lives at this position.
+            m_elements[m_open_list[e.m_open_list_position]].m_open_list_position = e.m_open_list_position;
         }
         --m_open_list_end; // delete the last item
 
